@@ -44,11 +44,29 @@ def mk_scfg(g, payload="plain", trees=None) -> SCFG:
         elif payload == "bytecode":
             b = PythonBytecodeBlock(name=name, _jump_targets=tuple(ss), begin=4 * i, end=4 * i + 4)
         elif payload == "ast":
+            if trees is None:
+                trees = simple_trees(g)
             b = PythonASTBlock(name=name, _jump_targets=tuple(ss), begin=i, end=i + 1, tree=trees[name])
         else:
             raise ValueError(payload)
         blocks[name] = b
     return SCFG(blocks)
+
+
+def simple_trees(g):
+    """executable AST payload for a generated graph: one logging statement per
+    block, a test for two-way blocks, a return for exits."""
+    import ast
+
+    trees = {}
+    for i, (name, ss) in enumerate(g.items()):
+        stmts = [ast.parse(f"v{i} = e({i}, 'q')").body[0]]
+        if len(ss) == 2:
+            stmts.append(ast.parse(f"d({i}) < v{i}").body[0].value)
+        elif len(ss) == 0:
+            stmts.append(ast.parse(f"return v{i}").body[0])
+        trees[name] = stmts
+    return trees
 
 
 STAGES = ("closed", "loop", "branch", "restructure")
@@ -590,7 +608,7 @@ def check_structure(scfg: SCFG, flat: Flat | None = None):
 # C05 conservation
 
 
-def check_conservation(g: dict, scfg: SCFG, originals: dict, flat: Flat | None = None):
+def check_conservation(g: dict, scfg: SCFG, originals: dict, flat: Flat | None = None, originals_snapshot: dict | None = None):
     """originals: name -> the very block objects put into the graph."""
     flat = flat or Flat(scfg)
     for name, ob in originals.items():
@@ -605,6 +623,9 @@ def check_conservation(g: dict, scfg: SCFG, originals: dict, flat: Flat | None =
         if isinstance(ob, PythonASTBlock):
             if b.tree is not ob.tree:
                 raise Viol("K-payload", f"block {name}: tree list replaced")
+            snap = originals_snapshot.get(name) if originals_snapshot else None
+            if snap is not None and [id(n) for n in b.tree] != snap:
+                raise Viol("K-payload", f"block {name}: statements of its tree were added, removed or replaced")
         old = g[name]
         new = b._jump_targets
         if not old:
@@ -679,6 +700,19 @@ def check_iteration(scfg: SCFG, flat: Flat | None = None):
             raise Viol("I-obj", f"iteration yields a different object for {k}")
     if names and names[0] != top_head(scfg):
         raise Viol("I-head", f"iteration starts at {names[0]}, head is {top_head(scfg)}")
+    # every sub-graph is a graph too: iterating it yields its own hierarchy
+    for rname, r in flat.regions.items():
+        try:
+            sub = [k for k, _ in r.subregion]
+        except Exception as e:  # noqa
+            raise Viol("I-sub-raise", f"iterating the sub-graph of {rname} raised {type(e).__name__}: {e}")
+        want = flat.interior(rname)
+        if len(set(sub)) != len(sub):
+            raise Viol("I-sub-dup", f"iterating the sub-graph of {rname} yields an item twice")
+        if set(sub) != want:
+            raise Viol("I-sub-set", f"iterating the sub-graph of {rname} misses {sorted(want - set(sub))[:4]} / invents {sorted(set(sub) - want)[:4]}")
+        if sub and sub[0] != r.header:
+            raise Viol("I-sub-head", f"iterating the sub-graph of {rname} starts at {sub[0]}, its header is {r.header}")
 
 
 def check_view(g: SCFG, label: str):
